@@ -6,6 +6,7 @@ require (
 	github.com/anishathalye/porcupine v1.3.0
 	github.com/dadrus/heimdall v0.0.0
 	github.com/envoyproxy/go-control-plane v0.13.1
+	github.com/pquerna/cachecontrol v0.2.0
 	github.com/rs/zerolog v1.33.0
 	google.golang.org/grpc v1.68.0
 	pgregory.net/rapid v1.3.0
@@ -112,7 +113,6 @@ require (
 	github.com/modern-go/concurrent v0.0.0-20180306012644-bacd9c7ef1dd // indirect
 	github.com/modern-go/reflect2 v1.0.2 // indirect
 	github.com/pkg/browser v0.0.0-20240102092130-5ac0b6a4141c // indirect
-	github.com/pquerna/cachecontrol v0.2.0 // indirect
 	github.com/robfig/cron/v3 v3.0.1 // indirect
 	github.com/rs/cors v1.11.1 // indirect
 	github.com/santhosh-tekuri/jsonschema/v6 v6.0.1 // indirect
